@@ -1,8 +1,8 @@
 //! Verification-only sorted-`Vec` models of `alloc::collections::{BTreeMap, BTreeSet}`, mounted into
 //! a scratch copy of `winter-utils` as `utils::verif_models` and substituted (under `cfg(kani)` only)
 //! for the std imports of the Merkle and boundary-constraint modules: the real B-tree internals are
-//! beyond CBMC (no result in 20 minutes for a 4-leaf batch proof). They offer exactly the methods
-//! winterfell calls, with the std semantics (ordered by key, insert replaces). Trusted assumption:
+//! beyond CBMC (no result in 20 minutes for a 4-leaf batch proof). They offer the methods
+//! winterfell calls (and the common ones an edit of those modules is likely to reach for), with the std semantics (ordered by key, insert replaces). Trusted assumption:
 //! model == alloc::collections on these methods.
 #![allow(dead_code, clippy::all)]
 use alloc::vec::Vec;
@@ -74,6 +74,34 @@ impl<K: Ord, V> BTreeMap<K, V> {
     pub fn into_values(self) -> impl Iterator<Item = V> {
         self.items.into_iter().map(|e| e.1)
     }
+    pub fn get_mut(&mut self, k: &K) -> Option<&mut V> {
+        match self.pos(k) {
+            Ok(i) => Some(&mut self.items[i].1),
+            Err(_) => None,
+        }
+    }
+    pub fn first_key_value(&self) -> Option<(&K, &V)> {
+        self.items.first().map(|(k, v)| (k, v))
+    }
+    pub fn last_key_value(&self) -> Option<(&K, &V)> {
+        self.items.last().map(|(k, v)| (k, v))
+    }
+    pub fn values_mut(&mut self) -> impl Iterator<Item = &mut V> {
+        self.items.iter_mut().map(|(_, v)| v)
+    }
+    pub fn iter_mut(&mut self) -> impl Iterator<Item = (&K, &mut V)> {
+        self.items.iter_mut().map(|(k, v)| (&*k, v))
+    }
+    pub fn into_keys(self) -> impl Iterator<Item = K> {
+        self.items.into_iter().map(|(k, _)| k)
+    }
+    /// entries whose key lies in `range`, in key order (std semantics)
+    pub fn range<R: core::ops::RangeBounds<K>>(&self, range: R) -> impl Iterator<Item = (&K, &V)> {
+        self.items.iter().filter(move |(k, _)| range.contains(k)).map(|(k, v)| (k, v))
+    }
+    pub fn retain<F: FnMut(&K, &mut V) -> bool>(&mut self, mut f: F) {
+        self.items.retain_mut(|(k, v)| f(k, v));
+    }
     pub fn entry(&mut self, k: K) -> Entry<'_, K, V> {
         Entry { map: self, key: k }
     }
@@ -98,6 +126,12 @@ impl<'a, K: Ord, V> Entry<'a, K, V> {
     }
 }
 
+impl<K: Ord, V> core::ops::Index<&K> for BTreeMap<K, V> {
+    type Output = V;
+    fn index(&self, k: &K) -> &V {
+        self.get(k).expect("no entry found for key")
+    }
+}
 impl<K, V> IntoIterator for BTreeMap<K, V> {
     type Item = (K, V);
     type IntoIter = alloc::vec::IntoIter<(K, V)>;
